@@ -93,7 +93,7 @@ def gen_program(rng, nmax=8, serial_bias=False, fail_rate=0.35):
     if rng.random() < 0.3:
         prio = prio[: len(prio) // 2]
     return {"nodes": nodes, "roots": roots, "prio": prio, "quiet_us": 250, "free": rng.random() < 0.1,
-            "verbose": rng.random() < 0.5}
+            "verbose": rng.random() < 0.5, "debug": rng.random() < 0.3}
 
 
 # ---------------------------------------------------------------- Coq terms
@@ -185,9 +185,38 @@ def case_term(prog, trace, logs):
 
 
 # ---------------------------------------------------------------- running
+KNOWN_KNOBS = {"MAGEFILE_CACHE", "MAGEFILE_DEBUG", "MAGEFILE_ENABLE_COLOR", "MAGEFILE_GOCMD", "MAGEFILE_HASHFAST", "MAGEFILE_HELP",
+               "MAGEFILE_IGNOREDEFAULT", "MAGEFILE_LIST", "MAGEFILE_SPECIFIC_THING", "MAGEFILE_TARGET_COLOR", "MAGEFILE_TIMEOUT",
+               "MAGEFILE_VERBOSE"}
+
+
+def discover_knobs():
+    """MAGEFILE_* names that occur in the non-test sources of the tree under test and that no model knows about: whatever
+    they are meant for, setting them must not change what the properties fix - they become an environment dimension."""
+    import re as _re
+    found = set()
+    for root, _, files in os.walk(REPO):
+        if "/testdata" in root or "/.git" in root or "/site" in root:
+            continue
+        for fn in files:
+            if fn.endswith(".go") and not fn.endswith("_test.go"):
+                try:
+                    found |= set(_re.findall(r"MAGEFILE_[A-Z0-9_]+", open(os.path.join(root, fn), errors="replace").read()))
+                except OSError:
+                    pass
+    return sorted(found - KNOWN_KNOBS)
+
+
+KNOB_VALUES = ["1", "true", "0", ",", "N0_1,", "_1", "all", "10ms", "x"]
+
+
 def run_program(binp, prog):
     env = dict(os.environ)
     env["MAGEFILE_VERBOSE"] = "1" if prog.get("verbose") else "0"
+    # debug mode must not change what runs, in which order, or what is propagated (its own lines start with DEBUG:)
+    env["MAGEFILE_DEBUG"] = "1" if prog.get("debug") else "0"
+    for k, v in (prog.get("knobs") or {}).items():
+        env[k] = v
     rc, out, err = sh([binp], input=json.dumps(prog).encode(), env=env, timeout=60)
     trace = [json.loads(l) for l in out.splitlines() if l.startswith("{")]
     logs = {}
@@ -431,6 +460,14 @@ def run_engine_check(ctx, pid, nprog, serial_bias=False, extra_programs=None, or
     while len(progs) < nprog:
         big = (not ctx.quick) and rng.random() < 0.2
         progs.append(gen_program(rng, nmax=20 if big else 8, serial_bias=serial_bias))
+    knobs = discover_knobs()
+    ctx.coverage["unmodelled_MAGEFILE_variables_in_source"] = knobs
+    if knobs:
+        # an environment variable the models do not know: every third program runs with it set to some plausible value
+        for i, pr in enumerate(progs):
+            if i % 3 == 1:
+                k = knobs[(i // 3) % len(knobs)]
+                pr["knobs"] = {k: KNOB_VALUES[(i // 3 // len(knobs)) % len(KNOB_VALUES)]}
     results = pmap(lambda p: run_program(binp, p), progs)
     items = []
     seen = set()
